@@ -22,7 +22,7 @@ EXPLANATION = (
     "removal drops `total - x` only under a *strict* comparison with x (a value equal to half the total is not its own complement).  "
     " (R6) with multiplicities the products x*g and the integer product helper are bounded by max(total, numbers), and (R1, extended) the bit expansion of the multiplicity is sized from max_multiplicity (integer_ub), not from the product bound. "
     " (R7) values read from the solver are rounded, never truncated (int() / weight_type() on a raw value) and binaries are read by a threshold, never by == 1; data in equality rows is converted to Python numbers; (R5, extended) the complement total - x is removed only under max_multiplicity == 1; (R3, extended) the k-range grows by t - 1 per partition constraint with t parts. "
-    "NOT decided: minimality; that complement removal preserves the optimum."
+    "A max / min over the partition constraints where the bound needs their sum is reported as a bound below K+1.  NOT decided: minimality; that complement removal preserves the optimum."
     ' (R2, round 3) the first k tried is at least 1.'
     ' (R7, hunt 4) the partition sums are compared exactly when integral and within the rounding error of the sum otherwise (no fixed tolerance).'
     ' (R8, hunt 5) the numbers the lower-bound helpers of MinFlowDecomp(.Cycles) hand to MinGenSet are summed as Python numbers (np.uint8 169 + 170 + 171 = 254 gave the bound 4 for three disjoint routes), MinGenSet stores max_multiplicity as a Python number, and MinFlowDecompCycles leaves its helper before it passes a flow value below 1 as that count.'
